@@ -201,8 +201,11 @@ func derivation(src string, full bool) (string, error) {
 
 func checkSpec(src string, withProcess bool) (first outcome, err error) {
 	// invocations 0-3: grammar, definitions and levels only, back to back; 4 and 5: with automaton and table
+	// (a derivation that ends in diagnostics is cheap and is repeated 12 times: a map with few entries is iterated
+	// in its usual order three times out of four)
 	var d0, d4 string
-	for i := 0; i < 6; i++ {
+	reps := 6
+	for i := 0; i < reps; i++ {
 		d, err := derivation(src, i >= 4)
 		if err != nil {
 			if strings.Contains(err.Error(), "ComputeLALR1Kernels") || strings.Contains(err.Error(), "lookahead") {
@@ -215,6 +218,9 @@ func checkSpec(src string, withProcess bool) (first outcome, err error) {
 			d0 = d
 		case i == 4:
 			d4 = d
+			if strings.Contains(d, "-error: ") {
+				reps = 16
+			}
 		}
 		want := d0
 		if i >= 4 {
